@@ -329,4 +329,238 @@ theorem intObj_encInt (i : Int) (hlo : -(2 ^ 63 : Int) ≤ i) (hhi : i < (2 ^ 63
             rw [signedOf_64 m (by omega) (by omega), ← hi] at this
             exact this
 
+
+theorem intObj_encInt_any (i : Int) (hlo : -(2 ^ 63 : Int) ≤ i) (hhi : i < (2 ^ 64 : Int)) (r : Bytes) :
+    ∃ x t j, encInt i ++ r = x :: t ∧ IntObj x t r j := by
+  by_cases h : i < (2 ^ 63 : Int)
+  · obtain ⟨x, t, e, o⟩ := intObj_encInt i hlo h r
+    exact ⟨x, t, i, e, o⟩
+  · have h0 : 0 ≤ i := by omega
+    obtain ⟨x, t, e, o⟩ := intObj_encUInt i.toNat (by omega) r
+    refine ⟨x, t, _, ?_, o⟩
+    rw [← e, encInt, if_pos h0]
+
+/-! ### byte strings, booleans, array headers -/
+
+structure BytesObj (x : UInt8) (t r : Bytes) (b : Bytes) : Prop where
+  ne : x ≠ 0xc0
+  ct : ctype x.toNat = .bytes
+  dec : decodeBytes (x :: t) = .ok (b, r)
+
+theorem decodeBytes_of_bytes (x : UInt8) (t : Bytes) (h : ctype x.toNat = .bytes) :
+    decodeBytes (x :: t) = (lenBytes x.toNat >>= readx) t := by
+  rw [decodeBytes, bind_ok (peek1_cons _ _)]
+  simp only [h]
+  rw [bind_ok (readn1_cons _ _)]
+
+theorem decBytesField_of_bytes (x : UInt8) (t : Bytes) (h : ctype x.toNat = .bytes) :
+    decBytesField (x :: t) = decodeBytes (x :: t) := by
+  rw [decBytesField, bind_ok (peek1_cons _ _)]
+  simp only [h]
+
+theorem bytesObj_wide (x : UInt8) (w : Nat) (b r : Bytes) (hne : x ≠ 0xc0) (hct : ctype x.toNat = .bytes)
+    (hl : lenBytes x.toNat = readBE w) (hb : b.length < 256 ^ w) :
+    BytesObj x (beN w b.length ++ (b ++ r)) r b := by
+  refine ⟨hne, hct, ?_⟩
+  rw [decodeBytes_of_bytes _ _ hct, hl, bind_ok (readBE_beN w b.length _ hb)]
+  exact readx_append b r
+
+theorem bytesObj_encBin (b : Bytes) (h : b.length < 2 ^ 32) (r : Bytes) :
+    ∃ x t, encBin b ++ r = x :: t ∧ BytesObj x t r b := by
+  unfold encBin encBinHdr
+  split
+  · rename_i h1
+    refine ⟨0xc4, beN 1 b.length ++ (b ++ r), by rw [beN_one _ h1]; simp, ?_⟩
+    exact bytesObj_wide 0xc4 1 b r (by decide) (by decide) (by simp (config := {decide := true}) [lenBytes]) (by omega)
+  · split
+    · refine ⟨0xc5, beN 2 b.length ++ (b ++ r), by simp, ?_⟩
+      exact bytesObj_wide 0xc5 2 b r (by decide) (by decide) (by simp (config := {decide := true}) [lenBytes]) (by omega)
+    · refine ⟨0xc6, beN 4 b.length ++ (b ++ r), by simp, ?_⟩
+      exact bytesObj_wide 0xc6 4 b r (by decide) (by decide) (by simp (config := {decide := true}) [lenBytes]) (by omega)
+
+theorem bytesObj_encStr (b : Bytes) (h : b.length < 2 ^ 32) (r : Bytes) :
+    ∃ x t, encStr b ++ r = x :: t ∧ BytesObj x t r b := by
+  unfold encStr encStrHdr
+  split
+  · rename_i h1
+    have ht : (UInt8.ofNat (0xa0 + b.length)).toNat = 0xa0 + b.length := toNat_ofNat_lt _ (by omega)
+    have hct : ctype (UInt8.ofNat (0xa0 + b.length)).toNat = .bytes := by rw [ht]; exact ctype_fixstr _ (by omega) (by omega)
+    refine ⟨UInt8.ofNat (0xa0 + b.length), b ++ r, by simp, ofNat_ne_c0 _ (by omega) (by omega), hct, ?_⟩
+    rw [decodeBytes_of_bytes _ _ hct, ht, lenBytes, if_neg (by omega), if_neg (by omega), if_neg (by omega),
+      bind_ok (pure_run _ _), Nat.add_sub_cancel_left]
+    exact readx_append b r
+  · split
+    · rename_i h1 h2
+      refine ⟨0xd9, beN 1 b.length ++ (b ++ r), by rw [beN_one _ h2]; simp, ?_⟩
+      exact bytesObj_wide 0xd9 1 b r (by decide) (by decide) (by simp (config := {decide := true}) [lenBytes]) (by omega)
+    · split
+      · refine ⟨0xda, beN 2 b.length ++ (b ++ r), by simp, ?_⟩
+        exact bytesObj_wide 0xda 2 b r (by decide) (by decide) (by simp (config := {decide := true}) [lenBytes]) (by omega)
+      · refine ⟨0xdb, beN 4 b.length ++ (b ++ r), by simp, ?_⟩
+        exact bytesObj_wide 0xdb 4 b r (by decide) (by decide) (by simp (config := {decide := true}) [lenBytes]) (by omega)
+
+/-- `encBool f` for the decoders -/
+theorem boolObj (f : Bool) (r : Bytes) :
+    ∃ x, encBool f ++ r = x :: r ∧ x ≠ 0xc0 ∧ ctype x.toNat = .unset ∧
+      (∃ k, nakedScalar x.toNat r = .ok (some k, r)) ∧ decodeBool (x :: r) = .ok (f, r) := by
+  cases f
+  · refine ⟨0xc2, rfl, by decide, by decide, ⟨.bool false, ?_⟩, ?_⟩
+    · rw [nakedScalar]; simp (config := {decide := true}) only [show (0xc2 : UInt8).toNat = 0xc2 from rfl, if_false, if_true]; rfl
+    · rw [decodeBool, bind_ok (readn1_cons _ _)]
+      simp (config := {decide := true}) only [show (0xc2 : UInt8).toNat = 0xc2 from rfl, if_false, if_true, true_or]; rfl
+  · refine ⟨0xc3, rfl, by decide, by decide, ⟨.bool true, ?_⟩, ?_⟩
+    · rw [nakedScalar]; simp (config := {decide := true}) only [show (0xc3 : UInt8).toNat = 0xc3 from rfl, if_false, if_true]; rfl
+    · rw [decodeBool, bind_ok (readn1_cons _ _)]
+      simp (config := {decide := true}) only [show (0xc3 : UInt8).toNat = 0xc3 from rfl, if_false, if_true, true_or, false_or, or_false, or_true]; rfl
+
+/-- an array header for the decoders -/
+theorem arrHdr_obj (n : Nat) (hn : n < 2 ^ 32) (r : Bytes) :
+    ∃ x t, encArrayHdr n ++ r = x :: t ∧ x ≠ 0xc0 ∧ ctype x.toNat = .array ∧ readArrayStart (x :: t) = .ok (n, r) := by
+  unfold encArrayHdr
+  split
+  · rename_i h1
+    have ht : (UInt8.ofNat (0x90 + n)).toNat = 0x90 + n := toNat_ofNat_lt _ (by omega)
+    refine ⟨UInt8.ofNat (0x90 + n), r, rfl, ofNat_ne_c0 _ (by omega) (by omega), by rw [ht]; exact ctype_fixarr _ (by omega) (by omega), ?_⟩
+    rw [readArrayStart, bind_ok (readn1_cons _ _), ht, lenArr, if_neg (by omega), if_neg (by omega), Nat.add_sub_cancel_left]
+    rfl
+  · split
+    · refine ⟨0xdc, beN 2 n ++ r, rfl, by decide, by decide, ?_⟩
+      rw [readArrayStart, bind_ok (readn1_cons _ _)]
+      simp (config := {decide := true}) only [show (0xdc : UInt8).toNat = 0xdc from rfl, lenArr, if_true]
+      exact readBE_beN 2 n r (by omega)
+    · refine ⟨0xdd, beN 4 n ++ r, rfl, by decide, by decide, ?_⟩
+      rw [readArrayStart, bind_ok (readn1_cons _ _)]
+      simp (config := {decide := true}) only [show (0xdd : UInt8).toNat = 0xdd from rfl, lenArr, if_true, if_false]
+      exact readBE_beN 4 n r (by omega)
+
+
+/-! ### `swallow` on every well-formed value within the depth limit -/
+
+/-- nesting depth as `swallow` counts it: a scalar 1, an array one more than
+    its deepest element -/
+def depth : Val → Nat
+  | .arr l => 1 + depthList l
+  | .nil => 1
+  | .bool _ => 1
+  | .int _ => 1
+  | .bin _ => 1
+  | .str _ => 1
+  | .map _ => 1
+  | .ext _ _ => 1
+  | .float _ => 1
+where
+  depthList : List Val → Nat
+    | [] => 0
+    | v :: vs => max (depth v) (depthList vs)
+
+theorem depthList_nil : depth.depthList [] = 0 := by rw [depth.depthList]
+theorem depthList_cons (v : Val) (vs : List Val) :
+    depth.depthList (v :: vs) = max (depth v) (depth.depthList vs) := by rw [depth.depthList]
+
+theorem swallow_scalar (f rem : Nat) (hrem : rem ≠ 0) (x : UInt8) (t r : Bytes) (ne : x ≠ 0xc0)
+    (ct : ctype x.toNat = .unset) (naked : ∃ k, nakedScalar x.toNat t = .ok (some k, r)) :
+    swallow (f + 1) rem (x :: t) = .ok ((), r) := by
+  obtain ⟨k, hk⟩ := naked
+  rw [swallow, if_neg hrem, bind_ok (tryNil_other x t ne)]
+  simp only [Bool.false_eq_true, if_false]
+  rw [bind_ok (peek1_cons _ _)]
+  simp only [ct]
+  rw [bind_ok (readn1_cons _ _), bind_ok hk]
+  rfl
+
+theorem swallow_bytes (f rem : Nat) (hrem : rem ≠ 0) (x : UInt8) (t r b : Bytes) (o : BytesObj x t r b) :
+    swallow (f + 1) rem (x :: t) = .ok ((), r) := by
+  rw [swallow, if_neg hrem, bind_ok (tryNil_other x t o.ne)]
+  simp only [Bool.false_eq_true, if_false]
+  rw [bind_ok (peek1_cons _ _)]
+  simp only [o.ct]
+  rw [bind_ok o.dec]
+  rfl
+
+theorem swallow_nil (f rem : Nat) (hrem : rem ≠ 0) (r : Bytes) : swallow (f + 1) rem (0xc0 :: r) = .ok ((), r) := by
+  rw [swallow, if_neg hrem, bind_ok (tryNil_c0 r)]
+  rfl
+
+theorem swallow_arr (f rem n : Nat) (hrem : rem ≠ 0) (x : UInt8) (t r : Bytes) (ne : x ≠ 0xc0)
+    (ct : ctype x.toNat = .array) (hs : readArrayStart (x :: t) = .ok (n, r)) :
+    swallow (f + 1) rem (x :: t) = swallowN f (rem - 1) n r := by
+  rw [swallow, if_neg hrem, bind_ok (tryNil_other x t ne)]
+  simp only [Bool.false_eq_true, if_false]
+  rw [bind_ok (peek1_cons _ _)]
+  simp only [ct]
+  rw [bind_ok hs]
+
+mutual
+theorem swallow_encode : (v : Val) → ValWF v → ∀ (rest : Bytes) (fuel rem : Nat),
+    2 * (encode v).length ≤ fuel → depth v ≤ rem → swallow fuel rem (encode v ++ rest) = .ok ((), rest)
+  | .nil, _, rest, fuel, rem, hf, hd => by
+    have := encode_pos .nil
+    obtain ⟨f, rfl⟩ : ∃ f, fuel = f + 1 := ⟨fuel - 1, by omega⟩
+    rw [depth] at hd
+    rw [encode]; exact swallow_nil f rem (by omega) rest
+  | .bool b, _, rest, fuel, rem, hf, hd => by
+    have := encode_pos (.bool b)
+    obtain ⟨f, rfl⟩ : ∃ f, fuel = f + 1 := ⟨fuel - 1, by omega⟩
+    rw [depth] at hd
+    rw [encode]
+    obtain ⟨x, e, ne, ct, nk, _⟩ := boolObj b rest
+    rw [e]; exact swallow_scalar f rem (by omega) x rest rest ne ct nk
+  | .int i, hv, rest, fuel, rem, hf, hd => by
+    have := encode_pos (.int i)
+    obtain ⟨f, rfl⟩ : ∃ f, fuel = f + 1 := ⟨fuel - 1, by omega⟩
+    rw [depth] at hd
+    rw [encode]
+    cases hv with
+    | int _ hlo hhi =>
+      obtain ⟨x, t, j, e, o⟩ := intObj_encInt_any i hlo hhi rest
+      rw [e]; exact swallow_scalar f rem (by omega) x t rest o.ne o.ct o.naked
+  | .bin b, hv, rest, fuel, rem, hf, hd => by
+    have := encode_pos (.bin b)
+    obtain ⟨f, rfl⟩ : ∃ f, fuel = f + 1 := ⟨fuel - 1, by omega⟩
+    rw [depth] at hd
+    rw [encode]
+    cases hv with
+    | bin _ h =>
+      obtain ⟨x, t, e, o⟩ := bytesObj_encBin b h rest
+      rw [e]; exact swallow_bytes f rem (by omega) x t rest b o
+  | .str b, hv, rest, fuel, rem, hf, hd => by
+    have := encode_pos (.str b)
+    obtain ⟨f, rfl⟩ : ∃ f, fuel = f + 1 := ⟨fuel - 1, by omega⟩
+    rw [depth] at hd
+    rw [encode]
+    cases hv with
+    | str _ h =>
+      obtain ⟨x, t, e, o⟩ := bytesObj_encStr b h rest
+      rw [e]; exact swallow_bytes f rem (by omega) x t rest b o
+  | .arr l, hv, rest, fuel, rem, hf, hd => by
+    have hp := encArrayHdr_pos l.length
+    rw [encode, List.length_append] at hf
+    obtain ⟨f, rfl⟩ : ∃ f, fuel = f + 1 := ⟨fuel - 1, by omega⟩
+    rw [depth] at hd
+    rw [encode, List.append_assoc]
+    cases hv with
+    | arr _ hl hall =>
+      obtain ⟨x, t, e, ne, ct, hs⟩ := arrHdr_obj l.length hl (encode.encodeList l ++ rest)
+      rw [e, swallow_arr f rem l.length (by omega) x t _ ne ct hs]
+      exact swallowN_encodeList l hall rest f (rem - 1) (by omega) (by omega)
+  | .map _, hv, _, _, _, _, _ => by cases hv
+  | .ext _ _, hv, _, _, _, _, _ => by cases hv
+  | .float _, hv, _, _, _, _, _ => by cases hv
+theorem swallowN_encodeList : (l : List Val) → (∀ v ∈ l, ValWF v) → ∀ (rest : Bytes) (fuel rem : Nat),
+    2 * (encode.encodeList l).length + 1 ≤ fuel → depth.depthList l ≤ rem →
+    swallowN fuel rem l.length (encode.encodeList l ++ rest) = .ok ((), rest)
+  | [], _, rest, fuel, rem, hf, _ => by
+    obtain ⟨f, rfl⟩ : ∃ f, fuel = f + 1 := ⟨fuel - 1, by omega⟩
+    rw [encodeList_nil, List.length_nil, swallowN]
+    rfl
+  | v :: vs, hall, rest, fuel, rem, hf, hd => by
+    have hp := encode_pos v
+    rw [encodeList_cons, List.length_append] at hf
+    rw [depthList_cons] at hd
+    obtain ⟨f, rfl⟩ : ∃ f, fuel = f + 1 := ⟨fuel - 1, by omega⟩
+    rw [encodeList_cons, List.length_cons, swallowN, List.append_assoc,
+      bind_ok (swallow_encode v (hall v (by simp)) _ f rem (by omega) (by omega))]
+    exact swallowN_encodeList vs (fun x hx => hall x (by simp [hx])) rest f rem (by omega) (by omega)
+end
+
 end Saltpack.Proofs.CodecP
